@@ -168,6 +168,12 @@ def spec_to_python(pkg, spec):
         ename, val = spec["$e"]
         enum_cls = getattr(pkg, ename)
         return enum_cls(val)
+    if isinstance(spec, dict) and "$money" in spec:
+        return f"m#{spec['$money']}"
+    if isinstance(spec, dict) and "$dt" in spec:
+        import datetime
+
+        return datetime.datetime.fromisoformat(spec["$dt"])
     if isinstance(spec, dict) and "$i" in spec:
         cls = getattr(pkg, spec["$i"])
         fields = {k: spec_to_python(pkg, v) for k, v in spec["f"].items()}
